@@ -409,6 +409,12 @@ def replay_real(run, case, pctx, name, lhs, rhs, assign):
         impl_real = ir.mp_eval(lhs, exact, cache) if lhs is not None else mpmath.mpf(0)
     except (ZeroDivisionError, ValueError):
         impl_real = mpmath.nan
+    except ir.Inconclusive as e:
+        # the implementation's expression leaves the reals at the witness (e.g. a fractional power
+        # of a negative number): undefined in exact arithmetic, like 0/0; the native run decides
+        if 'complex value' not in str(e):
+            raise
+        impl_real = mpmath.nan
     big = mpmath.mpf('1e150')
     if abs(want) > big or (impl_real == impl_real and abs(impl_real) > big):
         return False, {'error': 'witness outside the f64 range (overflow is not a violation)'}
